@@ -104,11 +104,25 @@ Lemma rename_rules_canon f v : canonr f v = true -> rename_rules v = Ok v.
 Proof.
   destruct v; try (destruct f; discriminate); [reflexivity|].
   intro H. pose proof (canonr_names _ _ H) as Hn. unfold rename_rules.
-  rewrite (no_spaced _ Hn). cbn [fold_left].
   unfold deprecated.
   rewrite (get_none_of_plain kvs "keyschema" Hn eq_refl). cbn [negb].
   rewrite (get_none_of_plain kvs "validator" Hn eq_refl). cbn [negb].
   rewrite (get_none_of_plain kvs "valueschema" Hn eq_refl). reflexivity.
+Qed.
+
+(** step 0 leaves canonical rule sets alone *)
+Lemma canon_rules_canon f v : canonr f v = true -> canon_rules v = v.
+Proof.
+  destruct v; try (destruct f; discriminate); [reflexivity|].
+  intro H. pose proof (canonr_names _ _ H) as Hn. unfold canon_rules.
+  rewrite (no_spaced _ Hn). reflexivity.
+Qed.
+
+Lemma canon_all_canon f s : canons f s = true -> canon_all s = s.
+Proof.
+  induction s as [|[k v] s IH]; [reflexivity|]. cbn [canons forallb snd]. intro H.
+  apply andb_true_iff in H as [H1 H2]. unfold canon_all in *. cbn [map fst snd].
+  rewrite (canon_rules_canon f v H1). rewrite (IH H2). reflexivity.
 Qed.
 
 Lemma rename_all_canon f s : canons f s = true -> rename_all s = Ok s.
@@ -186,7 +200,7 @@ Section Step.
 
   Lemma expand_step_fix s : canons (S f) s = true -> expand_step rec s = Ok s.
   Proof.
-    intro H. unfold expand_step. rewrite (shortcuts_canon _ _ H).
+    intro H. unfold expand_step. rewrite (canon_all_canon _ _ H). rewrite (shortcuts_canon _ _ H).
     rewrite (sub_fields_fix s H). cbn [bind]. apply (rename_all_canon _ _ H).
   Qed.
 End Step.
@@ -209,7 +223,7 @@ Qed.
 
 Lemma canons_zero_step rec s : canons 0 s = true -> expand_step rec s = Ok s.
 Proof.
-  intro H. unfold expand_step. rewrite (shortcuts_canon _ _ H).
+  intro H. unfold expand_step. rewrite (canon_all_canon _ _ H). rewrite (shortcuts_canon _ _ H).
   assert (E : sub_fields rec s = Ok s).
   { induction s as [|[k v] s IH]; [reflexivity|]. cbn [canons forallb snd] in H.
     apply andb_true_iff in H as [H1 H2]. cbn [sub_fields].
